@@ -64,8 +64,37 @@ def histOp (t : String) : Option HOp :=
   else if k = 'c' then some .clear
   else if k = 'g' then some .get
   else if k = 'm' then some (if a = 0 then .moveKeepNew else .moveKeepOld)
+  else if k = 'S' then some .moveSelf
   else if k = 'M' then (histMoveArgs t).map fun (x, y, z) => .moveAssignFrom x y z
   else if k = 'T' then (histMoveArgs t).map fun (x, y, z) => .moveAssignInto x y z
+  else none
+
+/-- `x<m>_<full>` extract, `w<w>` window, `c` move construction, `S` self move, `M<ls2>_<cs2>_<w>_<k>_<m>` / `T…` move assignment from / into -/
+def eeHandOp (t : String) : Option EEOp :=
+  let k := t.toList.headD ' '
+  let args := ((String.ofList (t.toList.drop 1)).splitOn "_").map String.toNat?
+  if k = 'x' then
+    match args with
+    | [some m, some f] => (EMethod.ofNat? m).map fun em => .extract em (f != 0)
+    | _ => none
+  else if k = 'w' then match args with | [some w] => some (.setWindow w) | _ => none
+  else if k = 'c' then some .moveConstruct
+  else if k = 'S' then some .moveSelf
+  else if k = 'M' || k = 'T' then
+    match args with
+    | [some a, some b, some w, some n, some m] =>
+      (EMethod.ofNat? m).map fun em => if k = 'M' then .moveAssignFrom a b w n em else .moveAssignInto a b w n em
+    | _ => none
+  else none
+
+/-- `e<ok>_<id>` enable_log, `d` disable_log, `l` log(), `q` query -/
+def logOp (t : String) : Option LogOp :=
+  let k := t.toList.headD ' '
+  let args := ((String.ofList (t.toList.drop 1)).splitOn "_").map String.toNat?
+  if k = 'e' then match args with | [some ok, some id] => some (.enable (ok != 0) id) | _ => none
+  else if k = 'd' then some .disable
+  else if k = 'l' then some .log
+  else if k = 'q' then some .query
   else none
 
 def handleUkfc : Option (R String) := some do
@@ -179,7 +208,14 @@ def handleR (op : String) : Option (R String) :=
       | some steps => pure (fmt (decide (1 ≤ N)) (eeSeqCase ls cs N steps))
   | "b_handover" => some do
       -- the receiving object behaves as the configured source B (fresh call-to-call members): the case of B's configuration
-      let cls ← nat; let _kind ← nat; let _A1 ← nat; let _A2 ← nat; let B1 ← nat; let B2 ← nat; let N ← nat; done
+      let cls ← nat; let kind ← nat; let A1 ← nat; let A2 ← nat; let B1' ← nat; let B2' ← nat; let N ← nat; done
+      -- kind 0 move assignment, 1 move construction, 2 copy assignment, 3 copy construction, 4 self move (`B = std::move(B)`),
+      -- 5 assignment from a const rvalue: the configuration of the object in use afterwards comes from the hand-over model
+      let (B1, B2) ← (match HandKind.ofNat? kind with
+        | none => failure
+        | some hk => match (handStep hk true (some (A1, A2)) (some (B1', B2'))).1 with
+          | some c => pure c
+          | none => failure)
       let lin (n : Nat) : Layout := ⟨n, 0, false, 0⟩
       let meas (sr m : Nat) : MMod := ⟨⟨sr, 0, false, m⟩, ⟨m, 0, false, 0⟩, m, 0, m, m, m, true, true, true⟩
       match cls with
@@ -201,7 +237,7 @@ def handleR (op : String) : Option (R String) :=
           let a : EEArgs := ⟨⟨B1 + B2, 4⟩, 4, 4, 4, ⟨4, 4⟩⟩
           let c : Case := do
             match (← eeCase B1 B2 em true a 7 0) with
-            | some toks => pure (some (toks.drop 3))
+            | some toks => pure (some ([toString N, "5"] ++ toks.drop 3))     -- method in use, default window, then the 4 extractions after the hand-over
             | none => pure none
           pure (fmt true c)
       | 9 => pure (fmt (decide (ukfValid true (lin B1) N (lin B1) N (meas B1 B2))) (do
@@ -219,6 +255,40 @@ def handleR (op : String) : Option (R String) :=
           | some toks => pure (some ((toks.take 1) ++ ((toks.drop 2).take 9))) | none => pure none))
       | 14 => pure (fmt (decide (rsValid N (lin B1) N (lin B1) N)) (rsCase N (lin B1) N (lin B1) N (weightOracle 0)))
       | _ => failure
+  | "b_lm2" => some do
+      -- the two-argument constructor `LinearModel(component, covariance)` delegates to the seeded one
+      let n ← nat; let rr ← nat; let rc ← nat; let num ← nat; let comps ← natList; done
+      pure (fmt true (lmCase n rr rc num comps))
+  | "b_eehand" => some do
+      let ls ← nat; let cs ← nat; let N ← nat
+      let ts ← rest
+      match ts.mapM eeHandOp with
+      | none => failure
+      | some ops => pure (fmt (decide (1 ≤ N)) (eeHandCase ls cs N ops))
+  | "b_logger" => some do
+      let _dir ← tok; let cls ← nat; let n ← nat; let k ← nat
+      let ts ← rest
+      match ts.mapM logOp with
+      | none => failure
+      | some ops => pure (fmt (decide (logValid (logSpecOf cls n k))) (logCase (logSpecOf cls n k) ops))
+  | "b_gfilter" => some do
+      let hasExo ← bool; let fn ← nat; let K ← nat; let hm ← nat; let steps ← nat; let n ← nat
+      let raw ← listOf n (do let w ← nat; let b ← bool; pure (w, b))
+      done
+      match raw.mapM (fun (p : Nat × Bool) => (SkipWhat.ofNat? p.1).map (fun w => (w, p.2))) with
+      | none => failure
+      | some cmds => pure (fmt (decide (gfValid fn K hm)) (gfCase hasExo fn K hm cmds steps))
+  | "b_pfilter" => some do
+      let hasExo ← bool; let N ← nat; let lin ← nat; let circ ← nat; let d ← dim; let nx ← nat; let ny ← nat; let hm ← nat
+      let steps ← nat; let n ← nat
+      let raw ← listOf n (do let w ← nat; let b ← bool; pure (w, b))
+      done
+      match raw.mapM (fun (p : Nat × Bool) => (SkipWhat.ofNat? p.1).map (fun w => (w, p.2))) with
+      | none => failure
+      | some cmds => pure (fmt (decide (sisValid N lin circ d hm)) (pfCase hasExo N lin circ d nx ny hm cmds steps (fun _ => true) (fun _ _ => true)))
+  | "b_defaults" => some do
+      let which ← nat; let fn ← nat; let sr ← nat; let N ← nat; done
+      pure (fmt (decide (defaultsValid which fn sr)) (defaultsCase which fn sr N))
   | "b_linprop" => some do
       let fn ← nat; let sr ← nat; let num ← nat; let pr ← nat; let pc ← nat; let sS ← bool; let hE ← bool; let sE ← bool; done
       if fn = 0 then pure (fmt false (pure none))
